@@ -101,6 +101,7 @@ type adjNbr struct {
 
 	helloSeen  bool
 	maxHold    uint16
+	lastHold   uint16
 	downBy     time.Time // at or after this time the adjacency must not be Up
 	goneBy     time.Time // at or after this time the neighbor must be absent
 	listed     bool      // a hello since the last non-Up observation listed us
@@ -241,8 +242,8 @@ func RunAdj(c AdjCase, out *Outcome, emit func(Sent)) {
 				if !now.Before(n.downBy) {
 					out.Count("hold_expiry_checks", 1)
 					if st == "up" {
-						out.Violate("hold-expiry", map[string]string{},
-							"step %d (%s): no hello from %s on %s for more than its holding time + 2 s (largest holding time %d s, now %s, limit %s) but the adjacency is still Up", step, ev, n.sys, n.iface, n.maxHold, now.Format("15:04:05"), n.downBy.Format("15:04:05"))
+						out.Violate("hold-expiry", map[string]string{"lowered": bstr(n.lastHold < n.maxHold)},
+							"step %d (%s): no hello from %s on %s for more than the holding time of its last hello + 2 s (holding time %d s, largest earlier one %d s, now %s, limit %s) but the adjacency is still Up", step, ev, n.sys, n.iface, n.lastHold, n.maxHold, now.Format("15:04:05"), n.downBy.Format("15:04:05"))
 					}
 				}
 				if !now.Before(n.goneBy) {
@@ -314,16 +315,28 @@ func RunAdj(c AdjCase, out *Outcome, emit func(Sent)) {
 			if e.Hold > n.maxHold {
 				n.maxHold = e.Hold
 			}
-			if t := now.Add(time.Duration(e.Hold)*time.Second + 2*time.Second); t.After(n.downBy) {
-				n.downBy = t
-			}
-			if t := now.Add(time.Duration(e.Hold)*time.Second + 125*time.Second); t.After(n.goneBy) {
-				n.goneBy = t
+			dBy := now.Add(time.Duration(e.Hold)*time.Second + 2*time.Second)
+			gBy := now.Add(time.Duration(e.Hold)*time.Second + 125*time.Second)
+			if e.TW != "absent" {
+				// the holding time of the LAST hello counts, also when it is shorter than an earlier one
+				n.downBy, n.goneBy, n.lastHold = dBy, gBy, e.Hold
+			} else {
+				// bio-rd rejects hellos without three-way TLV (its timer keeps the previous value); the
+				// statement does not say which holding time applies then: the later limit is used
+				if dBy.After(n.downBy) {
+					n.downBy = dBy
+				}
+				if gBy.After(n.goneBy) {
+					n.goneBy = gBy
+				}
 			}
 			if listsUs(e.TW) {
 				n.listed, n.listedBy = true, e.TW
 			}
 			n.lastTW = e.TW
+			if e.TW != "absent" && e.Hold < n.maxHold {
+				out.Count("hellos_lowering_hold", 1)
+			}
 			// a hello that changes the set of Up adjacencies makes the server request a new local
 			// LSP: wait for the updater goroutine to have stored it (logical wait, capped)
 			if !eqStrs(upSet(h.Adjs()), prevUp) {
